@@ -32,7 +32,10 @@ ASSUMPTIONS = [
 ]
 RULE = ('a rules or views file is generated with one failing expression site (match, let, top-level variable, field:, dynamic tag, transform, legacy '
         'expression pattern, legacy dynamic tag, view filter, view variable), the failure being injected or natural; 3-6 items are classified through '
-        'MerchantEngine.match, normalize_merchant, parse_generic_csv, classify_merchants and one `tally up`.  distinct_nontrivial counts distinct '
+        'MerchantEngine.match, normalize_merchant, parse_generic_csv (whole statement; one case in ten repeats the items to 140-300 rows, and a sample '
+        'of rows is also read as one-row statements in fresh processes) , classify_merchants and one `tally up` (rules and legacy CSV budgets; the '
+        'report must contain every row, filed as the library call filed it), on a pinned day drawn from a set with both leap days; legacy patterns '
+        'carry [date:lastNdays] / [month=N] modifiers.  distinct_nontrivial counts distinct '
         '(site, injected|natural failure class, position of the failing rule relative to the winner: before/winner/after/none) tuples that fired.')
 
 # they bind a walrus / loop name that other rules read as a primitive, variable or let binding - and then fail
@@ -111,7 +114,12 @@ def gen_case(rng, tier):
     family = rng.choice(['rules', 'rules', 'rules', 'legacy', 'views'])
     injected = rng.random() < 0.45
     case = {'family': family, 'injected': injected, 'items': items, 'mode': rng.choice(['first_match', 'first_match', 'most_specific']),
-            'failing': [], 'eval_faults': []}
+            'failing': [], 'eval_faults': [],
+            # the day the command runs (relative-date rules read the calendar; both leap days are days like any other)
+            'today': rng.choice(['2025-06-15', '2025-06-15', '2025-12-31', '2026-01-01', '2024-02-29', '2028-02-29', '2025-02-28']),
+            # now and then the statement is long: the items repeated under fresh row ids (what a failed evaluation leaves behind
+            # must not build up over a few hundred rows)
+            'big': rng.randint(140, 300) if rng.random() < 0.1 else 0}
     if family == 'rules':
         site = rng.choice(SITES_RULES)
         m = rf.gen_rules_model(rng, rng.randint(2, 5), fields=(), sources=('Card', 'Bank'), simple=False, supplemental=None)
@@ -199,7 +207,8 @@ def gen_case(rng, tier):
         for _ in range(rng.randint(2, 4)):
             w = rng.choice(words)
             cat, sub = rng.choice(rf.CATS)
-            rows.append({'pattern': rng.choice(['contains("%s")' % w, w, 'contains("%s") and amount > 10' % w, '%s.*r' % w[:3]]),
+            rows.append({'pattern': rng.choice(['contains("%s")' % w, w, 'contains("%s") and amount > 10' % w, '%s.*r' % w[:3],
+                                                '%s[date:last%ddays]' % (w, rng.choice([30, 365, 366, 730, 1461])), '%s[month=%d]' % (w, rng.randint(1, 12))]),
                          'merchant': w.title() + ' L', 'category': cat, 'subcategory': sub, 'tags': rng.sample(['fun', 'biz'], rng.randint(0, 1))})
         k = rng.randrange(len(rows))
         if site == 'legacy-pattern':
@@ -411,7 +420,7 @@ def execute(case, scratch):
     fam = case['family']
 
     def run(fn, faults=None):
-        r = proc.run_func(world, fn, {'net': 'down', 'eval_faults': faults or None}, ctl_parent=ctlp)
+        r = proc.run_func(world, fn, {'net': 'down', 'eval_faults': faults or None, 'today': case.get('today', '2025-06-15')}, ctl_parent=ctlp)
         count['evaluations'] += 1
         fired = sum(1 for e in r.events if e.get('k') == 'evalfault')
         if fired:
@@ -513,28 +522,57 @@ def execute(case, scratch):
                         add('EQ', path, diffk[0] if diffk else 'result',
                             'item r%d through %s: %s  but with the failing %s `%s` removed for it: %s' % (
                                 it['id'], path, util.canon(actual)[:300], site, case['expr'], util.canon(expected[0])[:300]))
-            # --- whole statement through parse_generic_csv: no row lost, per-row results as per-item
-            if fam == 'rules':
-                lines = ['Date,Description,Amount,Kind'] + ['%s,%s,%s,%s' % (it['date'], it['description'], it['amount'], (it['field'] or {}).get('kind', ''))
-                                                             for it in items]
+            # --- whole statement through parse_generic_csv: no row lost, every row classified as it is on its own
+            stmt_items = list(items)
+            for k in range(case.get('big') or 0):
+                b = items[k % len(items)]
+                nid = len(items) + k + 1
+                stmt_items.append(dict(b, id=nid, description=re.sub(r' r\d+$', ' r%d' % nid, b['description'])))
+            if case.get('big') and case['injected']:
+                ids = [it['id'] for it in stmt_items]
+                faults = [[case['expr'], c] for c in ids] if case.get('rule_index', 0) % 2 == 0 else [[case['expr'], c] for c in ids if c % 3]
+            lines = ['Date,Description,Amount,Kind'] + ['%s,%s,%s,%s' % (it['date'], it['description'], it['amount'], (it['field'] or {}).get('kind', ''))
+                                                         for it in stmt_items]
+            file_rows = None
+            if True:
                 util.write_world(world, {fname: text, 'stmt.csv': '\n'.join(lines) + '\n'})
                 got, fired = run(lambda: classify_file(rpath, os.path.join(world, 'stmt.csv'), case['mode']), faults)
                 log.append(['file', util.digest(got)])
                 if isinstance(got, dict) and '__raised__' in got:
                     add('DONE', 'parse_generic_csv', 'raised', 'parse_generic_csv over %d rows aborted with `%s` (failing %s `%s`): the whole source is lost'
-                        % (len(items), got['__raised__'], site, case['expr']))
-                elif len(got) != len(items):
-                    missing = sorted({it['description'] for it in items} - {g['description'] for g in got})
-                    add('DONE', 'parse_generic_csv', 'row-lost', 'parse_generic_csv returned %d of %d rows; lost: %s (failing %s `%s`)'
-                        % (len(got), len(items), missing[:3], site, case['expr']))
-            # --- the whole command: `tally up` must complete and report every row
-            if fam == 'rules':
+                        % (len(stmt_items), got['__raised__'], site, case['expr']))
+                elif len(got) != len(stmt_items):
+                    missing = sorted({it['description'] for it in stmt_items} - {g['description'] for g in got})
+                    add('DONE', 'parse_generic_csv', 'row-lost', 'parse_generic_csv returned %d of %d rows on %s; lost: %s (failing %s `%s`)'
+                        % (len(got), len(stmt_items), case.get('today'), missing[:3], site, case['expr']))
+                else:
+                    file_rows = got
+                    # a sample of rows, each also read as a one-row statement in a fresh process with the same rules and the same
+                    # failing pairs: what a failing rule does to a row does not depend on the rows before it
+                    n = len(stmt_items)
+                    pick = sorted(set(list(range(min(3, n))) + list(range(max(0, n - 4), n)) + ([n // 2, n // 3] if n > 8 else [])))
+                    for j in pick:
+                        util.write_world(world, {fname: text, 'one.csv': lines[0] + '\n' + lines[j + 1] + '\n'})
+                        one, _ = run(lambda: classify_file(rpath, os.path.join(world, 'one.csv'), case['mode']), faults)
+                        if isinstance(one, dict) or len(one) != 1:
+                            continue      # judged above for the base items
+                        if util.canon(one[0]) != util.canon(got[j]):
+                            add('EQ', 'parse_generic_csv', 'row-depends-on-earlier-rows',
+                                'row %d of %d (%s): within the statement -> %s ; as a one-row statement -> %s (failing %s `%s`)' % (
+                                    j + 1, n, stmt_items[j]['description'], util.canon(got[j])[:260], util.canon(one[0])[:260], site, case['expr']))
+                            break
+            # --- the whole command: `tally up` must complete and report every row, classified as the library call classified it
+            if True:
+                rules_rel = 'config/merchants.rules' if fam == 'rules' else 'config/merchant_categories.csv'
                 settings = ('year: 2025\ndata_sources:\n  - name: Card\n    file: data/stmt.csv\n'
-                            '    format: "{date:%Y-%m-%d},{description},{amount},{kind}"\nmerchants_file: config/merchants.rules\n')
+                            '    format: "{date:%%Y-%%m-%%d},{description},{amount},{kind}"\nmerchants_file: %s\n' % rules_rel)
+                if case['mode'] != 'first_match':
+                    settings += 'rule_mode: %s\n' % case['mode']
                 broot = os.path.join(scratch, 'b')
-                util.write_world(broot, {'config/settings.yaml': settings, 'config/merchants.rules': text,
+                util.write_world(broot, {'config/settings.yaml': settings, rules_rel: text,
                                          'data/stmt.csv': '\n'.join(lines) + '\n'})
-                r = proc.run_cli(broot, ['up', 'config', '--format', 'json', '-v'], {'net': 'down', 'eval_faults': faults or None}, ctl_parent=ctlp)
+                r = proc.run_cli(broot, ['up', 'config', '--format', 'json', '-v'],
+                                 {'net': 'down', 'eval_faults': faults or None, 'today': case.get('today', '2025-06-15')}, ctl_parent=ctlp)
                 count['evaluations'] += 1
                 count['command_runs'] = count.get('command_runs', 0) + 1
                 log.append(['up', r.exit, util.sha(util.norm_text(r.out, broot))])
@@ -542,21 +580,35 @@ def execute(case, scratch):
                 doc = parse_json_report(r.out) if r.exit == 0 else None
                 if doc is None:
                     add('DONE', 'tally up', 'raised', '`tally up` on %d rows exits %d: %s (failing %s `%s`)'
-                        % (len(items), r.exit, (r.err.strip().split('\n') or [''])[-1][:200], site, case['expr']))
+                        % (len(stmt_items), r.exit, (r.err.strip().split('\n') or [''])[-1][:200], site, case['expr']))
                 else:
-                    seen = set()
+                    seen = {}
                     for mm in doc.get('merchants', []):
-                        seen.update((mm.get('raw_descriptions') or {}).keys())
-                    want = set()
-                    for it in items:
-                        if it['amount'] != 0:
-                            want.add(it['description'])
+                        for d in (mm.get('raw_descriptions') or {}):
+                            seen[d] = (mm.get('category'), mm.get('subcategory'))
                     # transforms may rewrite the description that is reported; compare by row id
                     ids_seen = {rid for d in seen for rid in re.findall(r'r(\d+)$', d)}
-                    ids_want = {str(it['id']) for it in items}
+                    ids_want = {str(it['id']) for it in stmt_items}
                     if ids_seen != ids_want:
-                        add('DONE', 'tally up', 'row-lost', '`tally up` reported rows %s of %s (failing %s `%s`)'
-                            % (sorted(ids_seen), sorted(ids_want), site, case['expr']))
+                        add('DONE', 'tally up', 'row-lost', '`tally up` on %s reported %d of %d rows; missing %s (failing %s `%s`)'
+                            % (case.get('today'), len(ids_seen), len(ids_want), sorted(ids_want - ids_seen, key=int)[:5], site, case['expr']))
+                    elif file_rows is not None:
+                        lib = {}
+                        per_merchant = {}
+                        for g in file_rows:
+                            per_merchant.setdefault(g['merchant'], set()).add((g['category'], g['subcategory']))
+                        for g in file_rows:
+                            m_ = re.findall(r'r(\d+)$', g['description'])
+                            # the report shows one category per merchant name: rows are comparable where that is unambiguous
+                            if m_ and len(per_merchant[g['merchant']]) == 1:
+                                lib[m_[-1]] = (g['category'], g['subcategory'])
+                        for d, cs in sorted(seen.items()):
+                            m_ = re.findall(r'r(\d+)$', d)
+                            if m_ and m_[-1] in lib and lib[m_[-1]] != cs:
+                                add('EQ', 'tally up', 'command-differs-from-library',
+                                    '`tally up` files row `%s` under %s, parse_generic_csv with the same rules under %s (failing %s `%s`)' % (
+                                        d, cs, lib[m_[-1]], site, case['expr']))
+                                break
         else:
             vm = case['views_model']
             text = render_views_plain(vm)
@@ -582,7 +634,7 @@ def execute(case, scratch):
                                         'merchants_file: config/merchants.rules\nviews_file: config/views.rules\n',
                 'config/merchants.rules': '\n'.join(rl), 'config/views.rules': text, 'data/s.csv': '\n'.join(st_lines) + '\n'})
             for argv in (['up', 'config', '--summary'], ['up', 'config', '-q']):
-                r = proc.run_cli(broot, argv, {'net': 'down', 'eval_faults': faults or None}, ctl_parent=ctlp)
+                r = proc.run_cli(broot, argv, {'net': 'down', 'eval_faults': faults or None, 'today': case.get('today', '2025-06-15')}, ctl_parent=ctlp)
                 count['evaluations'] += 1
                 count['command_runs'] = count.get('command_runs', 0) + 1
                 log.append(['up', argv, r.exit, util.sha(util.norm_text(r.out, broot))])
@@ -676,6 +728,11 @@ def replay(schedule, scratch):
 def shrink_candidates(schedule):
     case = schedule['case']
     items = case['items']
+    if case.get('big'):
+        # a shorter statement first: none of the repeats, half, three quarters, a few less
+        for nb in (0, case['big'] // 2, case['big'] * 3 // 4, case['big'] - 8, case['big'] - 1):
+            if 0 <= nb < case['big']:
+                yield dict(schedule, case=dict(case, big=nb))
     if len(items) > 1:
         for j in range(len(items)):
             c2 = dict(case, items=items[:j] + items[j + 1:])
